@@ -782,7 +782,11 @@ class _BufferedReceiver:
 
         # Notify _pump()
         if self._put_message_waiter is not None:
-            self._put_message_waiter.set_result(None)
+            # NOTE: The waiter may already have been cancelled by stop() (the pump
+            #   task is cancelled while parked on a full queue, but has not yet run
+            #   its finally clause); there is nobody left to notify in that case.
+            if not self._put_message_waiter.done():
+                self._put_message_waiter.set_result(None)
             self._put_message_waiter = None
 
         return message
